@@ -3,6 +3,6 @@
 P=$1; shift
 for i in 1 2; do
   [ -f /tmp/wt_$P/_seed/patch$i.diff ] || continue
-  echo "=== $P-agent-$i"
-  /verif/tools/seed.py $P-agent-$i $P /tmp/wt_$P/_seed/patch$i.diff /tmp/wt_$P/_seed/demo$i.py "$(head -c 400 /tmp/wt_$P/_seed/notes$i.md | tr '\n' ' ')" "$@" 2>&1 | grep -E "KEPT|tests_pass|demo_rc|PATCH|\"rc\"|\"C[0-9]+\": \{|detected_by" | tr -d '\n' | sed 's/  */ /g'; echo
+  echo "=== $P-${SEED_TAG:-agent}-$i"
+  /verif/tools/seed.py $P-${SEED_TAG:-agent}-$i $P /tmp/wt_$P/_seed/patch$i.diff /tmp/wt_$P/_seed/demo$i.py "$(head -c 400 /tmp/wt_$P/_seed/notes$i.md | tr '\n' ' ')" "$@" 2>&1 | grep -E "KEPT|tests_pass|demo_rc|PATCH|\"rc\"|\"C[0-9]+\": \{|detected_by" | tr -d '\n' | sed 's/  */ /g'; echo
 done
